@@ -225,4 +225,148 @@ theorem encode_getLast (key : σ → Nat) (p : Path σ α) :
   simp only [encode, lastState, List.getLast?_map, Option.map_map]
   rfl
 
+/-! ### decimal encoding of fingerprint paths and the url parser -/
+
+theorem digit_of_mem {n : Nat} {c : Char} (h : c ∈ Nat.toDigits 10 n) : ('0' ≤ c && c ≤ '9') = true := by
+  have := Nat.isDigit_of_mem_toDigits (b := 10) (by decide) (by decide) h
+  simp only [Char.isDigit, Bool.and_eq_true, decide_eq_true_eq] at this ⊢
+  exact ⟨this.1, this.2⟩
+
+theorem foldl_digits (n : Nat) :
+    (Nat.toDigits 10 n).foldl (fun acc c => acc * 10 + (c.toNat - 48)) 0 = n := by
+  induction n using Nat.strongRecOn with
+  | ind n ih =>
+    rw [Nat.toDigits_eq_if (by decide)]
+    split
+    · rename_i h
+      simp [Nat.toNat_digitChar_sub_48_of_lt_ten h]
+    · rename_i h
+      rw [List.foldl_append, ih (n / 10) (by omega)]
+      simp [Nat.toNat_digitChar_sub_48_of_lt_ten (Nat.mod_lt n (by decide : 0 < 10))]
+      omega
+
+theorem parseFp_digits {n : Nat} (h0 : 0 < n) (h1 : n < 18446744073709551616) :
+    parseFp (Nat.toDigits 10 n) = some n := by
+  have hne : Nat.toDigits 10 n ≠ [] := Nat.toDigits_ne_nil
+  have hplus : ∀ r, Nat.toDigits 10 n ≠ '+' :: r := by
+    intro r e
+    have : '+' ∈ Nat.toDigits 10 n := by rw [e]; simp
+    have := digit_of_mem this
+    revert this; decide
+  unfold parseFp
+  have hm : (match Nat.toDigits 10 n with | '+' :: r => r | _ => Nat.toDigits 10 n) = Nat.toDigits 10 n := by
+    split
+    · rename_i r e; exact absurd e (hplus r)
+    · rfl
+  simp only [hm]
+  have hall : (Nat.toDigits 10 n).all (fun c => '0' ≤ c && c ≤ '9') = true := by
+    rw [List.all_eq_true]; intro c hc; exact digit_of_mem hc
+  simp only [hall, foldl_digits]
+  simp [hne]
+  omega
+
+theorem splitSlash_ne_nil (cs : List Char) : splitSlash cs ≠ [] := by
+  cases cs with
+  | nil => simp [splitSlash]
+  | cons c r =>
+    simp only [splitSlash]
+    split
+    · simp
+    · split <;> simp
+
+theorem splitSlash_noslash {ds : List Char} (h : '/' ∉ ds) : splitSlash ds = [ds] := by
+  induction ds with
+  | nil => rfl
+  | cons c r ih =>
+    have hc : c ≠ '/' := fun e => h (by simp [e])
+    have hr : '/' ∉ r := fun e => h (by simp [e])
+    simp [splitSlash, ih hr, hc]
+
+theorem splitSlash_append {ds rest : List Char} (h : '/' ∉ ds) :
+    splitSlash (ds ++ '/' :: rest) = ds :: splitSlash rest := by
+  induction ds with
+  | nil =>
+    simp only [List.nil_append, splitSlash]
+    cases hs : splitSlash rest with
+    | nil => exact absurd hs (splitSlash_ne_nil rest)
+    | cons s ss => simp
+  | cons c r ih =>
+    have hc : c ≠ '/' := fun e => h (by simp [e])
+    have hr : '/' ∉ r := fun e => h (by simp [e])
+    simp [splitSlash, ih hr, hc]
+
+theorem noslash_digits (n : Nat) : '/' ∉ Nat.toDigits 10 n := by
+  intro h
+  have := digit_of_mem h
+  revert this; decide
+
+theorem splitSlash_encode (fps : List Nat) (hne : fps ≠ []) :
+    splitSlash (encodeChars fps) = fps.map (Nat.toDigits 10) := by
+  induction fps with
+  | nil => exact absurd rfl hne
+  | cons a r ih =>
+    cases r with
+    | nil => simp [encodeChars, splitSlash_noslash (noslash_digits a)]
+    | cons b r' =>
+      simp only [encodeChars, splitSlash_append (noslash_digits a), List.map_cons]
+      rw [ih (by simp)]
+      simp
+
+theorem encode_last_not_slash (fps : List Nat) (hne : fps ≠ []) :
+    ('/' :: encodeChars fps).getLast? ≠ some '/' := by
+  induction fps with
+  | nil => exact absurd rfl hne
+  | cons a r ih =>
+    cases r with
+    | nil =>
+      simp only [encodeChars]
+      intro h
+      have hd : Nat.toDigits 10 a ≠ [] := Nat.toDigits_ne_nil
+      rw [List.getLast?_cons, ] at h
+      have : (Nat.toDigits 10 a).getLast? = some '/' := by
+        cases hl : (Nat.toDigits 10 a).getLast? with
+        | none => simp [List.getLast?_eq_none_iff] at hl
+        | some x => rw [hl] at h; simpa using h
+      exact noslash_digits a (List.mem_of_getLast? this)
+    | cons b r' =>
+      simp only [encodeChars]
+      intro h
+      apply ih (by simp)
+      have e : '/' :: (Nat.toDigits 10 a ++ '/' :: encodeChars (b :: r')) =
+          ('/' :: Nat.toDigits 10 a) ++ ('/' :: encodeChars (b :: r')) := by simp
+      rw [e, List.getLast?_append] at h
+      cases hl : ('/' :: encodeChars (b :: r')).getLast? with
+      | none => simp at hl
+      | some x => rw [hl] at h; simpa using h
+
+/-- the encoded form of a fingerprint sequence (as the Explorer's url suffix) parses back to it -/
+theorem parse_encode (fps : List Nat) (hne : fps ≠ [])
+    (hr : ∀ f ∈ fps, 0 < f ∧ f < 18446744073709551616) :
+    parseFpsChars ('/' :: encodeChars fps) = some fps := by
+  unfold parseFpsChars
+  simp only [encode_last_not_slash fps hne, if_false]
+  have hs : splitSlash ('/' :: encodeChars fps) = [] :: fps.map (Nat.toDigits 10) := by
+    have := splitSlash_append (ds := []) (rest := encodeChars fps) (by simp)
+    simpa [splitSlash_encode fps hne] using this
+  rw [hs]
+  have hf : (([] : List Char) :: fps.map (Nat.toDigits 10)).filterMap parseFp = fps := by
+    have h0 : parseFp [] = none := by simp [parseFp]
+    simp only [List.filterMap_cons, h0, List.filterMap_map]
+    clear hs hne
+    induction fps with
+    | nil => rfl
+    | cons a r ih =>
+      have ha := hr a (by simp)
+      simp only [List.filterMap_cons, Function.comp, parseFp_digits ha.1 ha.2]
+      rw [ih (fun f hf => hr f (by simp [hf]))]
+  simp [hf]
+
+theorem parseFps_encodeStr (key : σ → Nat) (p : Path σ α) (hne : p ≠ [])
+    (hr : ∀ f ∈ encode key p, 0 < f ∧ f < 18446744073709551616) :
+    parseFps ("/" ++ encodeStr key p) = some (encode key p) := by
+  have : ("/" ++ encodeStr key p).toList = '/' :: encodeChars (encode key p) := by simp [encodeStr]
+  unfold parseFps
+  rw [this]
+  exact parse_encode _ (by simpa [encode] using hne) hr
+
 end SR.PathApi
